@@ -10,7 +10,8 @@
     of the type, or the order key of a non-NaN float) or [None] (NaN). *)
 From Coq Require Import List NArith ZArith Bool.
 Import ListNotations.
-From LI Require Import Base.StrOps Parser.Ranges Parser.RangesProofs Parser.RangesParseProofs Parser.RangesCheck.
+From LI Require Import Base.StrOps Parser.Ranges Parser.RangesProofs Parser.RangesParseProofs Parser.RangesCheck
+  Parser.RangesDeclProofs.
 Open Scope Z_scope.
 
 (** Every well-formed specification (any layout, any of the ten types; float numerals through the
@@ -85,20 +86,36 @@ Theorem C04_spec : forall t tbl atoms counts,
     (match m with Ok r => map (do_match r) counts | _ => [] end) = true.
 Proof. exact spec_parse_holds. Qed.
 
-(** NOT PROVED (kept as a statement, see the report): the declaration-level predicate
-    RangesCheck.spec_C04 holds of the model's outputs for every source declaration.  It follows from
-    C04_parse_sem + C04_first_match + C04_static_dynamic through an induction over [csrc]
-    (parse_count of csrc_json vs csem) that is not done. *)
-Definition C04_spec_decl_statement : Prop :=
-  forall (d : sdecl) (tbl : ftable) (counts : list count_arg) t bs,
-    sdecl_wf tbl d = true ->
-    parse_decl tbl (sdecl_json d) = Ok (t, bs) -> codegen t bs = Ok tt ->
-    spec_C04 d counts (Ok (t, ibranches_of bs))
-      (map (fun a => match populate_with_count_arg t bs a with
-                     | Ok (SValue v) => Ok (render v) | Ok (SRanges _ _) => Unmodelled
-                     | Err e => Err e | Panic s => Panic s | Unmodelled => Unmodelled end) counts)
-      (map (fun a => match lit_value t (ca_lit a) with Some x => Some (gen_match bs x) | None => None end) counts)
-      (map (fun _ => None) counts) = true.
+(** bridge, declaration level: for every source declaration (type name with any padding or none, branches
+    in the four syntaxes, string / number / nested-list counts) that the parser accepts, the predicate the
+    check evaluates (RangesCheck.spec_C04: the rendered branch is the first declared branch whose count
+    specification contains the count, statically and natively; none matches => no branch is rendered;
+    {{ count }} shows the count) holds of the model's own outputs, for every list of literal counts whose
+    integer literals are displayed in decimal *)
+Theorem C04_spec_decl : forall d tbl counts t bs,
+  sdecl_wf tbl d = true -> forallb disp_ok counts = true ->
+  parse_decl tbl (sdecl_json d) = Ok (t, bs) ->
+  spec_C04 d counts (Ok (t, ibranches_of bs))
+    (map (static_obs t bs) counts) (map (native_obs t bs) counts) (map (fun _ => None) counts) = true.
+Proof. exact spec_decl_holds. Qed.
+
+(** the parsed branches of an accepted declaration mean what the source branches mean *)
+Theorem C04_decl_sem : forall tbl d t bs, sdecl_wf tbl d = true -> parse_decl tbl (sdecl_json d) = Ok (t, bs) ->
+  t = sdecl_type d /\ Forall2 (branch_rel t) (sd_branches d) bs.
+Proof. exact parse_decl_rel. Qed.
+
+(** C09 (non-finite float bounds): every declaration the repaired parser accepts has finite bounds, so
+    the code generator's float literals cannot panic; before the repair "inf" and 1e39-on-f32 were accepted *)
+Theorem C09_codegen_never_panics : forall tbl d t bs, parse_decl tbl d = Ok (t, bs) -> codegen t bs = Ok tt.
+Proof. exact codegen_never_panics. Qed.
+Theorem C09_nonfinite_old_panics :
+  range_new_nonfinite_old F64 w_inf_tbl [105; 110; 102]%N = Ok (Exact (Some 9218868437227405312))
+  /\ range_new F64 w_inf_tbl [105; 110; 102]%N = Err (RangeParse [105; 110; 102]%N)
+  /\ (let d := mk_jdecl (FirstType [102; 51; 50]%N)
+                 [BSeq (VText [PLit [97%N]]) [CNum (JF (Some 2139095040))]; BSeq (VText [PLit [98%N]]) []] in
+      (exists bs, parse_decl_nonfinite_old [] d = Ok (F32, bs) /\ codegen F32 bs = Panic SiteCodegenFloat)
+      /\ parse_decl [] d = Err RangeNumberType).
+Proof. exact nonfinite_old_panics. Qed.
 
 (** the validation before the repair (one level deep) is refuted: a float declaration hiding a
     fallback two levels deep is accepted, and static and dynamic selection differ on it *)
@@ -140,6 +157,19 @@ Example ex_valid :
   check_deserialization F64 [(Bounds None (Excluded (Some 5)), []); (Exact (Some 7), []); (Fallback, [])] = Ok tt.
 Proof. vm_compute. reflexivity. Qed.
 
+(** a source declaration satisfying the hypotheses of C04_spec_decl: ["u8", {"count":"0..3","value":..},
+    ["b1", [4, "7..=9"]], ["fb"]] *)
+Definition ex_decl : sdecl :=
+  mk_sdecl (Some ([32%N], U8, []))
+    [ mk_sbranch (Some (SStr [ARange [] (NInt 0 0 0) [] [] (NInt 0 0 3) []])) [PLit [97%N]; PVar s_count] SynMapCV;
+      mk_sbranch (Some (SArr [SNum (JU 4 None); SStr [ARangeIncl [] (NInt 0 0 7) [] [] [] (NInt 0 0 9) []]])) [PLit [98%N]] SynSeqNested;
+      mk_sbranch None [PLit [99%N]] SynSeq ].
+Example ex_decl_hyps :
+  sdecl_wf [] ex_decl = true /\ exists bs, parse_decl [] (sdecl_json ex_decl) = Ok (U8, bs) /\ length bs = 3%nat.
+Proof. split; [vm_compute; reflexivity|]. eexists. split; vm_compute; reflexivity. Qed.
+
 Print Assumptions C04_parse_sem.
 Print Assumptions C04_static_dynamic.
 Print Assumptions C04_spec.
+Print Assumptions C04_spec_decl.
+Print Assumptions C09_codegen_never_panics.
